@@ -49,6 +49,14 @@ class Ctx:
             self._corpus[name] = {n: Crate(os.path.join(d, n + ".json")) for n in crates + ["deserr", "deserr_internal"]}
         return self._corpus[name]
 
+    def libcrate(self, name="deserr"):
+        """facts of a library crate in the default configuration, for properties that do not involve the corpora:
+        reuses the catalogue run when it is available, else extracts the library alone"""
+        try:
+            return self.corpus("catalogue")[name]
+        except extract.CorpusBuildFailed:
+            return self.lib("default")[name]
+
     def lib_configs(self):
         if self.tier == "thorough":
             return ["default", "nodefault", "jsononly", "actix", "axum"]
@@ -144,6 +152,19 @@ def main():
             os.remove(os.path.join(evdir, "replay", fn))
     try:
         res = mod.run(ctx)
+    except extract.CorpusBuildFailed as e:
+        # the library builds but the code the derive generates for the corpus (or the corpus' use of the
+        # public API) no longer type-checks: nothing can be established for those inputs -> fail closed
+        from lin import Finding
+        res = PropResult(pid)
+        errs, n = e.first_errors()
+        first = errs[0] if errs else "unknown error"
+        import re as _re
+        first_key = _re.sub(r"src/lib\.rs:\d+:\d+", "src/lib.rs", first)
+        res.level = "other"
+        res.explanation = "corpus crate %s does not compile against the working tree" % e.name
+        res.rules["CORPUS.BUILD"] = [1, 0]
+        res.findings.append(Finding("CORPUS.BUILD", e.name, "the corpus no longer compiles against the repository (%d errors), first: %s" % (n, first_key[:300]), "", "\n".join(errs)))
     except extract.BuildFailed as e:
         print("CHECKER-ERROR property=%s the repository does not build under cargo +nightly check: %s" % (pid, str(e)[-3000:]))
         sys.exit(2)
